@@ -1,6 +1,7 @@
 import OjgVerif.Asm.LemmasOrder
 import OjgVerif.Asm.LemmasPrint
 import OjgVerif.Asm.LemmasNum
+import OjgVerif.Asm.LemmasPlan
 import OjgVerif.Gen.AsmFacts
 /-! # C20 — assembly plans evaluate totally, deterministically and as documented
 
@@ -249,6 +250,57 @@ theorem rerun_cond_plan_untouched :
     let run1 := execute envCur true 9 (some condCounterPlan) (.mref 2) condCounterHeap
     let run2 := execute envCur true 9 (some condCounterPlan) (.mref 3) run1.2
     run2.2.take 2 = condCounterHeap.take 2 := by decide
+
+/-- GENERAL: the plan is never edited. Split the heap at `k`: the plan's cells below, the data from `k` on,
+the data not referring to the plan (`HeapHi`), the root in the data. Then for EVERY plan (any functions,
+modelled or not, any literals), fuel and root, under the deviations of the code since 312106f, 52cf3c4
+and 9281d31 (`Dev.copies`): after `Execute` every cell of the plan is what it was, and the data still
+does not refer to the plan — the invariant that makes a plan reusable. (Order: runs that need no map
+order; with `order_independent` every order.) -/
+theorem plan_cells_untouched (dev : Dev) (hd : dev.copies) (r : Bool) (fuel : Nat) (plan : Option Arg) (root : Val)
+    (h : Heap) (k : Nat) (hh : HeapHi k h) (hk : k ≤ h.length) (hroot : root.hi k) :
+    (∀ i, i < k → (execute ⟨dev, none⟩ r fuel plan root h).2[i]? = h[i]?) ∧
+    HeapHi k (execute ⟨dev, none⟩ r fuel plan root h).2 ∧
+    h.length ≤ (execute ⟨dev, none⟩ r fuel plan root h).2.length := by
+  unfold execute
+  simp only
+  match plan with
+  | none => exact ⟨fun _ _ => rfl, hh, Nat.le_refl _⟩
+  | some (.lit _) => exact ⟨fun _ _ => rfl, hh, Nat.le_refl _⟩
+  | some (.raw _ _) => exact ⟨fun _ _ => rfl, hh, Nat.le_refl _⟩
+  | some (.path _) => exact ⟨fun _ _ => rfl, hh, Nat.le_refl _⟩
+  | some .unk => exact ⟨fun _ _ => rfl, hh, Nat.le_refl _⟩
+  | some (.call f args) =>
+    simp only
+    obtain ⟨g1, g2, g3, _⟩ := (evalFn_safe dev hd (eval ⟨dev, none⟩ root fuel) root root hroot hroot f args
+      (fun a at' hat' => eval_safe dev hd root hroot fuel a at' hat')).run h hh hk
+    cases hr : evalFn ⟨dev, none⟩ (eval ⟨dev, none⟩ root fuel) root root f args h with
+    | mk res h' =>
+      rw [hr] at g1 g2 g3
+      cases res with
+      | ok v => exact ⟨g1, g2, g3⟩
+      | error e => cases e <;> exact ⟨g1, g2, g3⟩
+
+/-- the code as it is -/
+theorem plan_cells_untouched_current (r : Bool) (fuel : Nat) (plan : Option Arg) (root : Val)
+    (h : Heap) (k : Nat) (hh : HeapHi k h) (hk : k ≤ h.length) (hroot : root.hi k) :
+    ∀ i, i < k → (execute envCur r fuel plan root h).2[i]? = h[i]? :=
+  (plan_cells_untouched Dev.current ⟨rfl, rfl, rfl⟩ r fuel plan root h k hh hk hroot).1
+
+/-- an instance of the hypotheses: the heap of `rerun_cond_counter_current` — plan cells 0 and 1, the two
+roots `{src: 1}` from 2 on -/
+example : HeapHi 2 condCounterHeap ∧ 2 ≤ condCounterHeap.length ∧ Val.hi 2 (.mref 2) := by
+  refine ⟨?_, by decide, (by show 2 ≤ 2; omega)⟩
+  intro i c hi hget
+  have : i = 2 ∨ i = 3 ∨ 4 ≤ i := by omega
+  rcases this with h | h | h
+  · subst h; simp [condCounterHeap] at hget; subst hget; intro kv hkv; simp at hkv; subst hkv; trivial
+  · subst h; simp [condCounterHeap] at hget; subst hget; intro kv hkv; simp at hkv; subst hkv; trivial
+  · have : condCounterHeap[i]? = none := List.getElem?_eq_none (by simp [condCounterHeap]; omega)
+    simp [this] at hget
+
+/-- the hypothesis `Dev.copies` is needed: before 52cf3c4 the plan's literal (cell 0) was edited -/
+example : (execute envBefore true 9 (some counterPlan) (.mref 1) counterHeap).2[0]? ≠ counterHeap[0]? := by decide
 
 /-! ## 4. documented results -/
 
